@@ -7,7 +7,7 @@ props="$*"
 out=$(mktemp -d /tmp/verif_cross.XXXXXX)
 for s in z3old cvc5; do
   for p in $props; do
-    VERIF_OUT=$out ./check $p --tier quick -solver $s -no-replay > $out/$p.$s.out 2>&1; rc=$?
+    VERIF_OUT=$out ./check $p --tier quick -solver $s > $out/$p.$s.out 2>&1; rc=$?
     echo "$s $p rc=$rc $(tail -1 $out/$p.$s.out | cut -c1-190)"
   done
 done
